@@ -801,7 +801,12 @@ Next == \/ Resize \/ Grow \/ Transfer \/ Detach \/ BufSlice \/ NewView \/ NewDat
         \/ Subarray \/ Slice \/ FromTA \/ FromList \/ DvGet \/ DvSet
 
 \* -simulate: TLC would evaluate every successor before choosing one; draw a few operations first instead
-NextRandom == \E i \in 1..6 : Do(RandomElement(LeafOps))
+\* (the set expression mentions a variable so that TLC does not treat the draw as a constant)
+\* two of the six draws are geometry changes, so that about a third of the steps resize / transfer / detach
+GeoKinds == {"resize", "grow", "transfer", "detach"}
+NextRandom ==
+  \E i \in 1..6 :
+    Do(RandomElement(IF depth < 0 THEN {} ELSE IF i <= 2 THEN {op \in LeafOps : op.k \in GeoKinds} ELSE LeafOps))
 
 Spec == Init /\ [][Next]_vars
 
